@@ -69,9 +69,12 @@ def _skeleton(p, fid, final=None):
 
 
 def _write(p, fid, o, op, fname, arrays):
-    key = (op['dt'], op['ix'])
+    key = (op['dt'], op['ix'], op.get('wd', 1))
     if key not in arrays:
-        arrays[key] = (p.array(INDEX[op['ix']]), p.array(((np.arange(6) * 7 + 3) % 50).astype(NP[op['dt']])))
+        val = ((np.arange(6) * 7 + 3) % 50).astype(NP[op['dt']])
+        if op.get('wd', 1) > 1:
+            val = np.stack([val] * op['wd'], axis=1)
+        arrays[key] = (p.array(INDEX[op['ix']]), p.array(val))
     ia, va = arrays[key]
     kw = {'from': 2, 'to': 5} if op['w'] == 'win' else {}
     p.write(fid, route='dict', data_arrays={o['idx']: ia, o['val']: va}, fname=fname, **kw)
